@@ -434,7 +434,8 @@ func replay(c *mcx.Ctx, raw json.RawMessage) (string, string) {
 func init() {
 	mcx.Register(&mcx.Driver{
 		ID: "C18", Run: run, Replay: replay,
-		Rule: "for each of three layout shapes (two steps and two inspections; inspections only; steps only) the full product: position (every string leaf of the layout found by a reflective walk: the four target fields at every index and every other field) x text (30-element catalogue: adjacent, nested-looking, unterminated, unknown, case-differing markers, values, escapes) x dictionary (26-element catalogue: 0-6 entries, values containing markers, empty values, seven invalid names, six that a lossy digest of a dictionary confuses), " +
+		Rule: "also: two-call histories whose first call is made on the same layout value; dictionaries whose values are spelled like their own or each other's names; " +
+			"for each of three layout shapes (two steps and two inspections; inspections only; steps only) the full product: position (every string leaf of the layout found by a reflective walk: the four target fields at every index and every other field) x text (30-element catalogue: adjacent, nested-looking, unterminated, unknown, case-differing markers, values, escapes) x dictionary (26-element catalogue: 0-6 entries, values containing markers, empty values, seven invalid names, six that a lossy digest of a dictionary confuses), " +
 			"each under every iteration order of the range over the dictionary (all n! for n<=4, first-element x direction above). Then two-call histories: every ordered pair of distinct valid dictionaries x every text at one step and one inspection position, the first dictionary used in an earlier call of the same process. A case = (position,text,dictionary[,earlier dictionary]), distinct by construction; non-trivial = text contains '{' and the dictionary is non-empty. states = cases, transitions = executions + choice points.",
 		Assumptions: []string{"reference: one left-to-right scan, '{' + [A-Za-z0-9_-]+ + '}' replaced iff the name is supplied, applied to expected_materials, expected_products, expected_command, run only"},
 	})
